@@ -132,3 +132,6 @@ pub fn vx_ord_le(a: core::cmp::Ordering, b: core::cmp::Ordering) -> (r: bool) en
 pub fn vx_ord_gt(a: core::cmp::Ordering, b: core::cmp::Ordering) -> (r: bool) ensures r == (ord_rank(a) > ord_rank(b)) { unimplemented!() }
 #[verifier::external_body]
 pub fn vx_ord_ge(a: core::cmp::Ordering, b: core::cmp::Ordering) -> (r: bool) ensures r == (ord_rank(a) >= ord_rank(b)) { unimplemented!() }
+
+/// R16b: what the dispatch loop does after an arm: `ip += 1` (Next) or `ip = t` (Jump(t))
+pub enum VxNext { Next, Jump(usize) }
